@@ -79,7 +79,9 @@ func WriteFiles(dir string, files map[string]string) error {
 
 // BaseEnv is the scrubbed environment every execution starts from.
 func BaseEnv() []string {
-	return []string{"PATH=/usr/local/bin:/usr/bin:/bin", "HOME=/nonexistent-verif-home", "LANG=C"}
+	// a narrow terminal exported by the shell (as watch(1) or a preview pane do), a non-English locale, a pager:
+	// nothing of this is an input of the program, so no report may depend on it
+	return []string{"PATH=/usr/local/bin:/usr/bin:/bin", "HOME=/nonexistent-verif-home", "LANG=C", "COLUMNS=48", "LINES=12", "LC_ALL=tr_TR.UTF-8", "PAGER=cat"}
 }
 
 // ExecOpts are the knobs of an L1 run.
